@@ -1468,3 +1468,205 @@ Proof.
   exists (c19_ex_heap ++ [C19Dict []]), {| g_ds := 4; g_aux := [5] |}, (C19Dict [(1%Z, 1%Z)]).
   vm_compute. exists 5. repeat split; auto. discriminate.
 Qed.
+
+(* ------------------------------------------------------------------------- *)
+(* sessions: ownership invariant over arbitrary operation sequences            *)
+
+Local Open Scope nat_scope.
+
+(* every live root is well-typed and no two live roots reach a common cell *)
+Definition c19_allsep (h : c19_heap) (roots : list nat) : Prop :=
+  (forall r, In r roots -> c19_wt h r = true) /\
+  (forall i j a b, i <> j -> nth_error roots i = Some a -> nth_error roots j = Some b -> c19_disjoint h a b).
+
+Lemma c19_allsep_op h roots k r o :
+  c19_allsep h roots -> nth_error roots k = Some r ->
+  c19_allsep (c19_apply h r o) roots /\
+  forall j b, j <> k -> nth_error roots j = Some b -> c19_obs (c19_apply h r o) b = c19_obs h b.
+Proof.
+  intros [Hwt Hdj] Hk.
+  assert (Wr : c19_wt h r = true) by (apply Hwt; eapply nth_error_In; eauto).
+  assert (Other : forall j b, j <> k -> nth_error roots j = Some b ->
+            c19_obs (c19_apply h r o) b = c19_obs h b /\ c19_reach (c19_apply h r o) b = c19_reach h b /\
+            c19_wt (c19_apply h r o) b = true /\ c19_disjoint (c19_apply h r o) r b).
+  { intros j b Hj Hb.
+    assert (Wb : c19_wt h b = true) by (apply Hwt; eapply nth_error_In; eauto).
+    assert (D : c19_disjoint h r b) by (eapply (Hdj k j); eauto).
+    destruct (c19_run_frame_gen [o] h r b Wr Wb D) as (A & B & C & E & G). simpl in *. auto. }
+  split; [split|].
+  - intros r' Hin. apply In_nth_error in Hin. destruct Hin as [i Hi].
+    destruct (Nat.eq_dec i k) as [->|Hne].
+    + rewrite Hk in Hi. injection Hi as <-. apply (c19_apply_ok h r o Wr).
+    + apply (Other i r' Hne Hi).
+  - intros i j a b Hij Ha Hb.
+    destruct (Nat.eq_dec i k) as [->|Hik].
+    + rewrite Hk in Ha. injection Ha as <-. apply (Other j b (not_eq_sym Hij) Hb).
+    + destruct (Nat.eq_dec j k) as [->|Hjk].
+      * rewrite Hk in Hb. injection Hb as <-. apply c19_disjoint_sym. apply (Other i a Hik Ha).
+      * destruct (Other i a Hik Ha) as (_ & Ra & _). destruct (Other j b Hjk Hb) as (_ & Rb & _).
+        intros x Hx Hc. rewrite Ra in Hx. rewrite Rb in Hc. exact (Hdj i j a b Hij Ha Hb x Hx Hc).
+  - intros j b Hj Hb. apply (Other j b Hj Hb).
+Qed.
+
+Lemma c19_allsep_copy h roots r h' r' :
+  c19_allsep h roots -> In r roots -> c19_deepcopy h r = (h', r') ->
+  c19_allsep h' (roots ++ [r']) /\ (forall b, In b roots -> c19_obs h' b = c19_obs h b) /\
+  c19_obs h' r' = c19_obs h r.
+Proof.
+  intros [Hwt Hdj] Hin E.
+  destruct (c19_deepcopy_spec h r h' r' (Hwt r Hin) E) as (X & O & W & F).
+  assert (Old : forall b, In b roots ->
+            c19_reach h' b = c19_reach h b /\ c19_obs h' b = c19_obs h b /\ c19_wt h' b = true).
+  { intros b Hb.
+    assert (Hs : forall i, In i (c19_reach h b) -> c19_get h' i = c19_get h i).
+    { intros i Hi. apply X. eapply c19_wt_reach_lt; eauto. }
+    destruct (c19_frame_obs h h' b Hs). repeat split; auto. eapply c19_wt_frame; eauto. }
+  split; [split|split]; auto.
+  - intros x Hx. apply in_app_or in Hx. destruct Hx as [Hx|[<-|[]]]; auto. apply (Old x Hx).
+  - intros i j a b Hij Ha Hb.
+    assert (Case : forall idx v, nth_error (roots ++ [r']) idx = Some v ->
+              (idx < length roots /\ nth_error roots idx = Some v) \/ (idx = length roots /\ v = r')).
+    { intros idx v Hv. destruct (Nat.lt_ge_cases idx (length roots)).
+      - left. rewrite nth_error_app1 in Hv by assumption. auto.
+      - right. rewrite nth_error_app2 in Hv by assumption.
+        destruct (idx - length roots) as [|q] eqn:Eq; simpl in Hv.
+        + injection Hv as <-. split; [lia|reflexivity].
+        + destruct q; discriminate. }
+    assert (NewOld : forall v, In v roots -> c19_disjoint h' v r').
+    { intros v Hv x Hx Hc. rewrite (proj1 (Old v Hv)) in Hx.
+      pose proof (c19_wt_reach_lt h v (Hwt v Hv) x Hx). apply F in Hc. lia. }
+    destruct (Case i a Ha) as [[Li Ha']|[-> ->]]; destruct (Case j b Hb) as [[Lj Hb']|[-> ->]].
+    + intros x Hx Hc.
+      rewrite (proj1 (Old a (nth_error_In _ _ Ha'))) in Hx. rewrite (proj1 (Old b (nth_error_In _ _ Hb'))) in Hc.
+      exact (Hdj i j a b Hij Ha' Hb' x Hx Hc).
+    + apply NewOld. eapply nth_error_In; eauto.
+    + apply c19_disjoint_sym. apply NewOld. eapply nth_error_In; eauto.
+    + congruence.
+  - intros b Hb. apply (Old b Hb).
+Qed.
+
+Lemma c19_nth_error_last {A} (l : list A) (x : A) : nth_error (l ++ [x]) (length l) = Some x.
+Proof. rewrite nth_error_app2 by lia. rewrite Nat.sub_diag. reflexivity. Qed.
+
+(* one step of a session with deep copy / deep export: the invariant is kept, and every root other
+   than the one a mutator is applied through reports what it reported before *)
+Lemma c19_sstep_ok fl h roots s :
+  fl_copy_deep fl = true -> fl_export_deep fl = true -> c19_allsep h roots ->
+  let '(h', roots') := c19_sstep fl (h, roots) s in
+  c19_allsep h' roots' /\
+  forall j b, nth_error roots j = Some b -> match s with C19SOp k _ => j <> k | _ => True end ->
+              c19_obs h' b = c19_obs h b.
+Proof.
+  intros Hc He S. unfold c19_sstep. destruct s as [k|k|k o].
+  - destruct (nth_error roots k) as [r|] eqn:Hk; [|split; auto].
+    rewrite Hc. destruct (c19_deepcopy h r) as [h' r'] eqn:E.
+    destruct (c19_allsep_copy h roots r h' r' S (nth_error_In _ _ Hk) E) as (S' & O & _).
+    split; auto. intros j b Hb _. apply O. eapply nth_error_In; eauto.
+  - destruct (nth_error roots k) as [r|] eqn:Hk; [|split; auto].
+    rewrite He. destruct (c19_deepcopy h r) as [h1 r1] eqn:E.
+    destruct (c19_allsep_copy h roots r h1 r1 S (nth_error_In _ _ Hk) E) as (S1 & O1 & _).
+    pose proof (c19_nth_error_last roots r1) as Hl.
+    destruct (c19_allsep_op h1 (roots ++ [r1]) (length roots) r1 (C19DelVar c19_GRID_TOPOLOGY) S1 Hl) as (S2 & O2).
+    destruct (c19_allsep_op _ (roots ++ [r1]) (length roots) r1 (C19SetVar c19_GRID_TOPOLOGY [(-1)%Z] [(0%Z, 0%Z)]) S2 Hl) as (S3 & O3).
+    split; auto. intros j b Hb _.
+    assert (Lj : j < length roots) by (apply nth_error_Some; congruence).
+    assert (Hb' : nth_error (roots ++ [r1]) j = Some b) by (rewrite nth_error_app1; auto).
+    rewrite (O3 j b ltac:(lia) Hb'), (O2 j b ltac:(lia) Hb'). apply O1. eapply nth_error_In; eauto.
+  - destruct (nth_error roots k) as [r|] eqn:Hk; [|split; auto].
+    destruct (c19_allsep_op h roots k r o S Hk) as (S' & O). split; auto.
+Qed.
+
+(* the ownership invariant holds along every session *)
+Lemma c19_session_inv fl : fl_copy_deep fl = true -> fl_export_deep fl = true ->
+  forall l w, c19_allsep (fst w) (snd w) -> c19_allsep (fst (c19_srun fl w l)) (snd (c19_srun fl w l)).
+Proof.
+  intros Hc He. induction l as [|s l IH]; intros [h roots] S; simpl; auto.
+  apply IH. pose proof (c19_sstep_ok fl h roots s Hc He S) as K.
+  destruct (c19_sstep fl (h, roots) s) as [h' roots']. apply K.
+Qed.
+
+(* ... so at every point of every session a further operation leaves all other roots as they were *)
+Lemma c19_session_thm fl : fl_copy_deep fl = true -> fl_export_deep fl = true ->
+  forall l w s, c19_allsep (fst w) (snd w) ->
+  let w1 := c19_srun fl w l in
+  forall j b, nth_error (snd w1) j = Some b -> match s with C19SOp k _ => j <> k | _ => True end ->
+              c19_obs (fst (c19_sstep fl w1 s)) b = c19_obs (fst w1) b.
+Proof.
+  intros Hc He l w s S w1 j b Hb Hs.
+  pose proof (c19_session_inv fl Hc He l w S) as S1. fold w1 in S1. destruct w1 as [h1 roots1].
+  pose proof (c19_sstep_ok fl h1 roots1 s Hc He S1) as K.
+  destruct (c19_sstep fl (h1, roots1) s) as [h' roots']. apply K; assumption.
+Qed.
+
+(* the flags of the current source *)
+Lemma c19_flags_current :
+  c19_f_pc_copies = true /\ c19_f_std_copies = true /\ c19_f_init_copies = true /\
+  c19_f_copy_deep = true /\ c19_f_export_deep = true /\ c19_f_scrip_copies = true /\
+  c19_f_poly_returns_copy = true /\ c19_f_line_returns_copy = true /\ c19_f_gdf_returns_copy = false.
+Proof. repeat split; reflexivity. Qed.
+
+Lemma c19_session_current : forall l w s, c19_allsep (fst w) (snd w) ->
+  let w1 := c19_srun c19_sflags_current w l in
+  forall j b, nth_error (snd w1) j = Some b -> match s with C19SOp k _ => j <> k | _ => True end ->
+              c19_obs (fst (c19_sstep c19_sflags_current w1 s)) b = c19_obs (fst w1) b.
+Proof. apply c19_session_thm; reflexivity. Qed.
+
+Local Open Scope Z_scope.
+
+(* without the deep copy (either flag off) a session exists in which a mutation through one root
+   changes what another root reports *)
+Lemma c19_session_shallow_refuted :
+  (exists w l j b, c19_allsep (fst w) (snd w) /\
+     let w1 := c19_srun {| fl_copy_deep := false; fl_export_deep := true |} w l in
+     nth_error (snd w1) j = Some b /\ j <> 0%nat /\
+     c19_obs (fst (c19_sstep {| fl_copy_deep := false; fl_export_deep := true |} w1 (C19SOp 0 (C19SetAttr (-1) 7 7)))) b
+       <> c19_obs (fst w1) b) /\
+  (exists w l j b, c19_allsep (fst w) (snd w) /\
+     let w1 := c19_srun {| fl_copy_deep := true; fl_export_deep := false |} w l in
+     nth_error (snd w1) j = Some b /\ j <> 0%nat /\
+     c19_obs (fst (c19_sstep {| fl_copy_deep := true; fl_export_deep := false |} w1 (C19SOp 0 (C19SetAttr (-1) 7 7)))) b
+       <> c19_obs (fst w1) b).
+Proof.
+  assert (S0 : c19_allsep c19_ex_heap [4%nat]).
+  { split.
+    - intros r [<-|[]]. reflexivity.
+    - intros i j a b Hij Ha Hb. destruct i as [|[|i]], j as [|[|j]]; simpl in *; try discriminate; congruence. }
+  split.
+  - exists (c19_ex_heap, [4%nat]), [C19SCopy 0], 1%nat, 4%nat. split; [exact S0|]. vm_compute.
+    split; [reflexivity|]. split; [lia|discriminate].
+  - exists (c19_ex_heap, [4%nat]), [C19SExport 0], 1%nat, 4%nat. split; [exact S0|]. vm_compute.
+    split; [reflexivity|]. split; [lia|discriminate].
+Qed.
+
+(* geometry exports with the flags of the source: where the flag is on, the handed-out object is
+   never the cached one; for Grid.to_geodataframe (flag off) the caller's edit reaches the cache *)
+Lemma c19_export_geo_current h cached c c' :
+  c19_get h cached = Some c ->
+  (let '(h', e) := c19_export_geo c19_f_poly_returns_copy h cached in
+   e <> cached /\ c19_get (c19_upd h' e c') cached = Some c) /\
+  (let '(h', e) := c19_export_geo c19_f_line_returns_copy h cached in
+   e <> cached /\ c19_get (c19_upd h' e c') cached = Some c) /\
+  (let '(h', e) := c19_export_geo c19_f_gdf_returns_copy h cached in
+   e = cached /\ c19_get (c19_upd h' e c') cached = Some c').
+Proof.
+  intros Hg. change c19_f_poly_returns_copy with true. change c19_f_line_returns_copy with true.
+  change c19_f_gdf_returns_copy with false.
+  destruct (c19_export_geo true h cached) as [h' e] eqn:E.
+  destruct (c19_export_geo_deep h cached c h' e c' Hg E) as (A & _ & B).
+  repeat split; auto. apply (c19_export_geo_shared h cached c c' Hg).
+Qed.
+
+(* non-vacuity: a session with a copy, an export and mutations on a concrete heap *)
+Example c19_session_nonvacuous :
+  c19_allsep c19_ex_heap [4%nat] /\
+  let w1 := c19_srun c19_sflags_current (c19_ex_heap, [4%nat])
+                     [C19SCopy 0; C19SExport 1; C19SOp 0 (C19SetVar c19_NODE_LAT [1; 2] []); C19SOp 2 (C19WriteBuf c19_NODE_LON [9; 9])] in
+  length (snd w1) = 3%nat /\ c19_changed_roots (c19_ex_heap, [4%nat; 4%nat; 4%nat]) w1 = [0%nat; 1%nat; 2%nat] /\
+  c19_changed_roots w1 (c19_sstep c19_sflags_current w1 (C19SOp 1 (C19SetAttr (-1) 7 7))) = [1%nat].
+Proof.
+  split.
+  - split.
+    + intros r [<-|[]]. reflexivity.
+    + intros i j a b Hij Ha Hb. destruct i as [|[|i]], j as [|[|j]]; simpl in *; try discriminate; congruence.
+  - vm_compute. repeat split; reflexivity.
+Qed.
